@@ -125,6 +125,20 @@ void sim_apply_plan(const Plan *p)
 	}
 }
 
+int (*g_quiesce_hook)(void);
+
+static int quiesce_handler(void)
+{
+	if (g_quiesce_hook && g_quiesce_hook()) return 1;
+	if (!g_sim.quiesced) {
+		g_sim.quiesced = 1;
+		g_sim.probes[PR_QUIESCED]++;
+		net_close_all();
+		return 1;
+	}
+	return 0;
+}
+
 void conn_run(const Plan *p, const CredSet *cs, HonestOut *out,
 	void (*on_record)(Conn *, int, int, const uint8_t *, size_t),
 	void (*pre_run)(Endpoint *, Endpoint *))
@@ -149,7 +163,7 @@ void conn_run(const Plan *p, const CredSet *cs, HonestOut *out,
 	if (pre_run) pre_run(cl, sv);
 
 	g_sim.next_event = net_next_event;
-	g_sim.on_quiesce = net_close_all;
+	g_sim.on_quiesce = quiesce_handler;
 	g_sim.on_switch = mon_on_switch;
 	cl->task = sim_spawn("client", 0, ep_task, cl);
 	sv->task = sim_spawn("server", 1, ep_task, sv);
@@ -163,8 +177,17 @@ void conn_run(const Plan *p, const CredSet *cs, HonestOut *out,
 		out->io_err[s] = e[s]->io_err;
 		memcpy(out->io_err_what[s], e[s]->io_err_what, sizeof(out->io_err_what[s]));
 		out->data_after_fail[s] = e[s]->data_after_fail;
+		out->recv_errs[s] = e[s]->recv_errs;
+		out->got_after_err[s] = e[s]->got_after_err;
 		out->hs_done_step[s] = e[s]->hs_done_step;
+		out->rd_at_done[s] = e[s]->rd_at_done;
+		out->finished[s] = e[s]->finished;
+		int d = s == 0 ? DIR_C2S : DIR_S2C;
+		out->nrecmap[d] = e[s]->nrecmap;
+		memcpy(out->recmap[d], e[s]->recmap, sizeof(out->recmap[d]));
 	}
+	out->step_capped = g_sim.step_capped;
+	out->quiesced = g_sim.quiesced;
 	out->both_done = out->hs_ret[0] == 1 && out->hs_ret[1] == 1;
 	out->wrote[DIR_C2S] = cl->wrote[DIR_C2S]; out->wrote[DIR_S2C] = sv->wrote[DIR_S2C];
 	out->got[DIR_C2S] = sv->got[DIR_C2S]; out->got[DIR_S2C] = cl->got[DIR_S2C];
